@@ -1326,21 +1326,33 @@ where
     }
 
     pub(crate) async fn fsyncdata(&self) -> IOResult<()> {
-        if self.fsync_in_progress.compare_exchange(false, true, Ordering::AcqRel, Ordering::Acquire).is_err() {
-            return Ok(())
-        }
-
-        let _flag = ResetableFlag { flag: &self.fsync_in_progress };
-
-        let safe = self.safe.read().await;
-        if let Some(ablob) = &safe.active_blob {
-            let ablob = ablob.read().await;
-            if !self.too_many_dirty_bytes(ablob.file_dirty_bytes()) {
+        loop {
+            if self.fsync_in_progress.compare_exchange(false, true, Ordering::AcqRel, Ordering::Acquire).is_err() {
+                return Ok(())
+            }
+            {
+                let _flag = ResetableFlag { flag: &self.fsync_in_progress };
+                let safe = self.safe.read().await;
+                if !self.active_blob_is_too_dirty(&safe).await {
+                    return Ok(());
+                }
+                safe.fsyncdata().await?;
+            }
+            // A write acknowledged while the flag was set did not request a sync (see `should_try_fsync`)
+            // and the sync above may not cover its bytes: look again instead of leaving them
+            // above the limit until the next write
+            let safe = self.safe.read().await;
+            if !self.active_blob_is_too_dirty(&safe).await {
                 return Ok(());
             }
         }
+    }
 
-        safe.fsyncdata().await
+    async fn active_blob_is_too_dirty(&self, safe: &Safe<K>) -> bool {
+        match &safe.active_blob {
+            Some(ablob) => self.too_many_dirty_bytes(ablob.read().await.file_dirty_bytes()),
+            None => false,
+        }
     }
 
     /// Explicit sync requested by the user: performed regardless of the dirty bytes threshold
